@@ -262,6 +262,12 @@ func CheckC11(r *core.Run) {
 		}
 	})
 	traces := histories(r, cfgs)
+	sc := c11Scenarios(r)
+	for _, t := range sc {
+		r.AddDistinct(t.Name)
+		r.AddEvals(int64(len(t.Events)))
+	}
+	traces = append(traces, sc...)
 	sampleTrace(r, traces)
 	judgeTx(r, traces, reportOpts{})
 }
